@@ -131,6 +131,42 @@ def history(e, variants, seed, dseed, between=True):
     return est, fresh, last, ref
 
 
+#: wrappers that are DOCUMENTED to work on the very object they are given (no clone): sharing a component between
+#: two of them is sharing a model by design, so the shared-component history is not run on them
+SHARES_BY_DESIGN = ("SkBaseTransformLearner", "SkBaseTransformStacking", "TransferTransformer")
+
+
+def shared_components(e, seed, dseed):
+    """Model A and model B are built from the SAME component objects (binner, inner estimator, transformer ...),
+    as `B = type(A)(**A.get_params(deep=False))` does.  Fitting B afterwards on other data must leave A's outputs
+    unchanged: A depends on its own parameters, training set and seeds only."""
+    import numpy
+    rng = random.Random(dseed)
+    XA, yA, wA = _menu.make_data(e.data, rng, 0)
+    XB, yB, wB = _menu.make_data(e.data, rng, 1)
+    A = e.factory()
+    try:
+        params = A.get_params(deep=False)
+    except Exception:  # noqa: BLE001
+        return [], False
+    if not any(hasattr(v, "get_params") and not isinstance(v, type) for v in params.values()):
+        return [], False
+    B = type(A)(**params)
+    numpy.random.seed(seed)
+    _menu.call_fit(A, XA, yA, wA)
+    before = observe_all(A, e, XA, yA, seed + 100)
+    numpy.random.seed(seed + 1)
+    _menu.call_fit(B, XB, yB, wB)
+    after = observe_all(A, e, XA, yA, seed + 100)
+    bad = []
+    for (ob, a), (_, b) in zip(before, after):
+        if a != b:
+            bad.append(("%s:shared-components:observer-changes:%s" % (e.cls, ob.replace("_xy", "")),
+                        "outputs of a fitted model change after ANOTHER model built from the same component objects is fitted",
+                        "outputs of %s differ" % ob, "identical outputs (components are cloned before fitting)"))
+    return bad, True
+
+
 def compare(e, est, fresh, last, ref, what):
     bad = []
     for (ob, a), (_, b) in zip(last, ref):
@@ -281,6 +317,18 @@ def search(ctx, hints):
             if len(samples) < 3:
                 samples.append({"entry": e.name, "history": "fit(A%d); observe; fit(A%d); observe vs fresh" % variants[:2],
                                 "fitted_attributes": sorted(fitted_state(est))})
+        # two models built from the same component objects
+        if e.cls not in SHARES_BY_DESIGN:
+            seed = ctx.rng.randrange(1 << 30)
+            dseed = ctx.rng.randrange(1 << 30)
+            try:
+                bad, ran = shared_components(e, seed, dseed)
+            except Exception:  # noqa: BLE001
+                bad, ran = [], False
+            if ran:
+                evals += 1
+                nontriv.add((e.name, "shared-components"))
+                add(bad, {"entry": e.name, "kind": "shared-components", "variants": [0, 1], "seed": seed, "dseed": dseed})
         # two fits under the same global seed agree exactly
         seed = ctx.rng.randrange(1 << 30)
         dseed = ctx.rng.randrange(1 << 30)
@@ -341,6 +389,8 @@ def replay(ctx, item):
     e = {m.name: m for m in _menu.build_menu()}[inp["entry"]]
     if inp["kind"] == "seed-independence":
         bad = seed_independence(e, inp["seed"], inp["seed2"], inp["dseed"])
+    elif inp["kind"] == "shared-components":
+        bad, _ = shared_components(e, inp["seed"], inp["dseed"])
     else:
         est, fresh, last, ref = history(e, tuple(inp["variants"]), inp["seed"], inp["dseed"])
         bad = compare(e, est, fresh, last, ref, "refit" if inp["kind"] == "refit" else "same-global-seed")
